@@ -1777,7 +1777,11 @@ class ternary(base_quantizer.BaseQuantizer):  # pylint: disable=invalid-name
         thres = self.default_threshold
       else:
         thres = self.threshold
-      q = K.cast(tf.abs(x) >= thres, K.floatx()) * tf.sign(x)
+      # zero counts as positive (as in binary): with a threshold of 0 an input
+      # of exactly 0 is not below the threshold and must not get code 0
+      sign = tf.sign(x)
+      sign += (1.0 - tf.abs(sign))
+      q = K.cast(tf.abs(x) >= thres, K.floatx()) * sign
 
     # ternary ranges from -1 to +1, so we use tanh(x) to be a differentiable
     # version of that.
